@@ -1,6 +1,12 @@
 package main
 
-import "gopkg.in/typ.v4/chans"
+import (
+	"runtime"
+	"sync"
+	"sync/atomic"
+
+	"gopkg.in/typ.v4/chans"
+)
 
 func drain(ch chan int) []int {
 	out := []int{}
@@ -48,6 +54,33 @@ func c19queued(t []string) (string, bool) {
 		}
 		n := chans.RecvQueuedFull(ch, buf)
 		return itoa(n) + " " + fmtInts(buf) + " " + fmtInts(drain(ch)), true
+	case "recvqueuedconc":
+		// g goroutines call RecvQueued(ch, limit) at the same time on one channel pre-filled with 1..fill (no sender):
+		// result = the g lists (in goroutine order) and what is left
+		need(t, 6)
+		old := runtime.GOMAXPROCS(8)
+		defer runtime.GOMAXPROCS(old)
+		ch := mkChan(atoi(t[1]), atoi(t[2]), atoi(t[3]) != 0)
+		g, limit := atoi(t[4]), atoi(t[5])
+		res := make([][]int, g)
+		var wg sync.WaitGroup
+		var ready int32 // spin barrier: all g goroutines enter RecvQueued within a few nanoseconds of each other
+		for i := 0; i < g; i++ {
+			wg.Add(1)
+			go func(i int) {
+				defer wg.Done()
+				atomic.AddInt32(&ready, 1)
+				for atomic.LoadInt32(&ready) < int32(g) {
+				}
+				r := chans.RecvQueued(ch, limit)
+				if r == nil {
+					r = []int{}
+				}
+				res[i] = r
+			}(i)
+		}
+		wg.Wait()
+		return fmtIntss(res) + " " + fmtInts(drain(ch)), true
 	}
 	return "", false
 }
